@@ -91,7 +91,7 @@ impl CountMinSketch {
         }
 
         let ctrs = ctrs.next_power_of_two();
-        let hctrs = ctrs / 2;
+        let hctrs = (ctrs / 2).max(1);
 
         let mut source = StdRng::seed_from_u64(
             SystemTime::now()
